@@ -141,7 +141,7 @@ Print Assumptions C06_unescape_surrogate_orig_refuted.
    Owner of this part: ext-actions.  parse_full = the loop of Parser::parse over the regenerated tables with all 90 reduce actions of
    parser.rs on the node stack; the check compares it node by node with the real parser on every generated case of every construct. *)
 From Coq Require Import ZArith String.
-From DV Require Import Gen.LalrTables C06.Actions C06.ActionsProofs.
+From DV Require Import Gen.LalrTables C06.Actions C06.ActionsKinds C06.ActionsProofs.
 
 (* every action name in the reduce arms of lalr.rs (regenerated on this run) is one of the modelled actions *)
 Theorem C06_actions_all_known :
@@ -170,8 +170,8 @@ Theorem C06_actions_stack_safe :
 Proof. exact actions_stack_safe. Qed.
 Print Assumptions C06_actions_stack_safe.
 
-(* the grammar read from feel.y fits the tables (rule numbers, YY_R2 lengths, YY_R1 left-hand sides), the declared effects are uniform,
-   and every rule types: the boolean the sweep evaluates *)
+(* the grammar read from feel.y fits the tables (rule numbers, YY_R2 lengths, YY_R1 left-hand sides), the reduce arms of lalr.rs run the
+   action feel.y names in each rule, the declared effects are uniform, and every rule types: the boolean the sweep evaluates *)
 Theorem C06_actions_rules_typed : all_rules_ok = true.
 Proof. exact all_rules_ok_true. Qed.
 Print Assumptions C06_actions_rules_typed.
